@@ -31,6 +31,59 @@ type NDStep struct {
 	CRLF    bool       `json:"crlf,omitempty"`  // in/inbatch: line ends in \r\n
 	Msg     *MsgModel  `json:"msg,omitempty"`   // out
 	Answers []MsgModel `json:"answers,omitempty"`
+	// Spread (out/answer): the params, result and error data handed to Write as raw JSON are laid out over several
+	// lines (white space between tokens, as an indenting encoder or a forwarded pretty-printed message has it).
+	Spread bool `json:"spread,omitempty"`
+}
+
+// spread lays a JSON text out over several lines: same value, line breaks and indentation between tokens.
+func spread(s string) string {
+	var b strings.Builder
+	inStr, esc := false, false
+	for i := 0; i < len(s); i++ {
+		c := s[i]
+		if inStr {
+			b.WriteByte(c)
+			switch {
+			case esc:
+				esc = false
+			case c == '\\':
+				esc = true
+			case c == '"':
+				inStr = false
+			}
+			continue
+		}
+		switch c {
+		case '"':
+			inStr = true
+			b.WriteByte(c)
+		case '{', '[', ',':
+			b.WriteByte(c)
+			b.WriteString("\n  ")
+		case '}', ']':
+			b.WriteString("\r\n")
+			b.WriteByte(c)
+		case ':':
+			b.WriteString(": ")
+		default:
+			b.WriteByte(c)
+		}
+	}
+	return b.String()
+}
+
+func (m MsgModel) spread() MsgModel {
+	if m.Params != "" {
+		m.Params = spread(m.Params)
+	}
+	if m.Result != "" {
+		m.Result = spread(m.Result)
+	}
+	if m.Data != "" {
+		m.Data = spread(m.Data)
+	}
+	return m
 }
 
 type NDScript struct {
@@ -98,8 +151,10 @@ func genND(rt *rapid.T) NDScript {
 			m := genMsgModel(rt, allKinds)
 			uniq(used, &m)
 			st.Msg = &m
+			st.Spread = rapid.IntRange(0, 3).Draw(rt, "spread") == 0
 		case "answer":
 			j := rapid.IntRange(0, len(owed)-1).Draw(rt, "which_batch")
+			st.Spread = rapid.IntRange(0, 3).Draw(rt, "spread") == 0
 			st.Answers = owed[j]
 			owed = append(owed[:j], owed[j+1:]...)
 		}
@@ -213,7 +268,12 @@ func runNDInner(s NDScript, res *vt.Result) {
 			want := st.Msg.env()
 			note(want)
 			desc.WriteString(want.String())
-			if err := conn.Write(ctx, st.Msg.build()); err != nil {
+			out := *st.Msg
+			if st.Spread {
+				out = out.spread()
+				res.Class("raw_payload_laid_out_over_several_lines")
+			}
+			if err := conn.Write(ctx, out.build()); err != nil {
 				res.Failf("step %d: Connection.Write of a valid %s failed: %v", i, st.Msg.Kind, err)
 				return
 			}
@@ -238,6 +298,9 @@ func runNDInner(s NDScript, res *vt.Result) {
 				note(e)
 				desc.WriteString(e.String())
 				wantByID[e.idToken()] = e
+				if st.Spread {
+					am = am.spread()
+				}
 				if err := conn.Write(ctx, am.build()); err != nil {
 					res.Failf("step %d: Connection.Write of a response to a batched call failed: %v", i, err)
 					return
